@@ -180,9 +180,20 @@ pub fn known_match<'a>(known: &'a [KnownFinding], prop: &str, v: &Violation) -> 
             && k.property == prop
             && (k.tier.is_empty() || k.tier == v.tier)
             && k.class == v.class
-            && abstract_indices(&k.path) == abstract_indices(&v.path)
+            && path_matches(&k.path, &v.path)
             && (k.detail_contains.is_empty() || v.detail.contains(&k.detail_contains))
     })
+}
+
+/// A listed path matches a violation path when they are equal after abstracting indices; a listed path ending in
+/// `*` (after a `.`) matches every path with that prefix (used where one cause shows under many sub-paths).
+fn path_matches(listed: &str, got: &str) -> bool {
+    let l = abstract_indices(listed);
+    let g = abstract_indices(got);
+    match l.strip_suffix(".*") {
+        Some(prefix) => g == prefix || g.starts_with(&format!("{prefix}.")),
+        None => l == g,
+    }
 }
 
 pub fn verif_dir() -> std::path::PathBuf {
